@@ -285,4 +285,23 @@ example :
     (∀ e ∈ F.streams, identOf synack = e.1 ∧ synack.v6 = e.2.sid.v6 ∧ e.2.server.packetBelongs synack = true) := by
   decide
 
+/-! non-vacuity of sections 4–5 -/
+
+def rst4 : Pkt := { syn4 with src := syn4.dst, dst := syn4.src, sport := 80, dport := 1234, flags := 20, ts := 2000 }
+def late6 : Pkt := { syn6 with sport := 9, ts := 900000000 }
+
+/-- non-vacuity of `forget_iff` / `forget_reason`: after the SYN, the RST answering it ends the connection now … -/
+example : EndsNow cfg0 identOf (Model.run cfg0 Follower.empty [syn4]).1 rst4 (identOf syn4) := by
+  refine Or.inl ⟨by decide, _, rfl, ?_⟩
+  decide
+
+/-- … and a packet of another connection 15 minutes later makes the sweep end it (TIMEOUT) -/
+example : EndsNow cfg0 identOf (Model.run cfg0 Follower.empty [syn4]).1 late6 (identOf syn4) := by
+  refine Or.inr ⟨by unfold sweepDue; decide, _, rfl, ?_⟩
+  decide
+
+example : (Model.run cfg0 Follower.empty [syn4, late6]).1.streams.length = 1 ∧
+    (Model.run cfg0 Follower.empty [syn4, late6]).2.flatten.length = 3 := by
+  decide
+
 end Tins.Props.C07
